@@ -1,5 +1,5 @@
 """Property -> rules registry."""
-from .rules import kernel, incr, rot, sched, meas, integrator, kal, purity
+from .rules import kernel, incr, rot, sched, meas, integrator, kal, purity, diff, sensor
 
 PROPS = {
     'C01': dict(
@@ -122,6 +122,25 @@ PROPS = {
                    'agreement between scalar/stacked/list/array/table forms of one input'],
         assumptions=['pandas >= 3 copy-on-write semantics (measured in this sandbox); calls '
                      'listed under assumed_read_only_calls do not write their arguments']),
+    'C18': dict(
+        rules=[diff.diff_orient, diff.wrap_rules, diff.res_rules],
+        decided=['difference is +first -second on every path, whichever input is denser',
+                 'angle reduction maps every real angle into (-180, 180] congruent mod 360 '
+                 '(interval proof, array and scalar arms)',
+                 'resampling clips to the span, keeps column order, SLERP for attitude / linear '
+                 'for the rest', 'metre conversion signs and renaming of the position part'],
+        undecided=['exact zero for a table against itself', 'reproduction of original rows and '
+                   'first-order recovery of a perturbation (numerical)']),
+    'C14': dict(
+        rules=[sensor.sm_names, sensor.sm_count, sensor.sm_accum, sensor.sm_sign, purity.rng_src],
+        decided=['state names produced by estimator and simulator and parsed by the estimator '
+                 'agree', 'output/input axis roles at all six sites',
+                 'construction counters paired with appends/stores on every path; slices use the '
+                 'indexing counter (all 2^18 masks at once)',
+                 'estimate updates are additive accumulations; reset covers all estimate state',
+                 'correction is the inverse form of the simulated error; sampling-interval '
+                 'exponents of bias / white noise / bias walk'],
+        undecided=['empirical variances of simulated noise', 'numerical inverse property']),
 }
 
 
